@@ -72,7 +72,7 @@ fn report(prop: &str, seed: u64, scn: &Scenario, rf: &psim::reference::Ref, ex: 
     let probes = oracle::probes(scn, rf, ex);
     let mut s = String::new();
     s.push_str(&format!(
-        "{{\"seed\":{},\"verdict\":{},\"keys\":[{}],\"detail\":{},\"steps\":{},\"decisions\":{},\"workers\":{},\"frames\":{},\"ilv\":\"{:016x}\",\"nontrivial\":{},\"probes\":[{}],\"policy\":{},\"term\":{},\"src\":{},\"shape\":{},\"len\":{},\"hash\":\"{:016x}\",\"fired\":{},\"panicked\":{}",
+        "{{\"seed\":{},\"verdict\":{},\"keys\":[{}],\"detail\":{},\"steps\":{},\"decisions\":{},\"workers\":{},\"frames\":{},\"ilv\":\"{:016x}\",\"nontrivial\":{},\"probes\":[{}],\"policy\":{},\"term\":{},\"src\":{},\"shape\":{},\"len\":{},\"hash\":\"{:016x}\",\"fired\":{},\"panicked\":{},\"rescues\":{}",
         seed,
         jstr(verdict),
         keys.iter().map(|k| jstr(k)).collect::<Vec<_>>().join(","),
@@ -92,6 +92,7 @@ fn report(prop: &str, seed: u64, scn: &Scenario, rf: &psim::reference::Ref, ex: 
         log_hash(&ex.rec),
         ex.fired.iter().filter(|x| **x).count(),
         ex.outcome.is_err(),
+        ex.rec.rescues,
     ));
     if bad || full {
         s.push_str(&format!(
